@@ -121,12 +121,65 @@ def make_hooks(dom, rec, n, flag_policy=None, ode_out=None, on_ode=None, extra=N
             return None
         return NotImplemented
 
+    class MatrixModel:
+        """Opaque matrix: entries are free data."""
+
+    def mk_matrix(it, *a):
+        return MatrixModel()
+
+    def lu_decomp(it, a, ip):
+        r = it.choose(["Ok", "Err"], "lu_decomp")
+        it.events.append(("lu", r))
+        return REnum("Ok", [()]) if r == "Ok" else REnum("Err", [REnum("SingularMatrix")])
+
+    def lin_solve(it, a, b, ip):
+        for i in range(len(b)):
+            b.set(i, dom.opaque("lin") if dom.name == "round" else dom.sym(f"lin{len(rec.notes)}_{i}"))
+        rec.notes.append("lin_solve")
+        return None
+
+    def m_tol_iter(it, recv, arg_ns, env, node):
+        if isinstance(recv, REnum) and recv.name in ("Scalar", "Vector"):
+            n_ = it.expr(arg_ns[0], env)
+            return [idx(it, recv, i) for i in range(n_)]
+        return NotImplemented
+
+    def change_d_model(it, d, order, factor, scratch):
+        """bdf.rs change_d in the Round domain: the difference array is right-hand-side data, so the
+        rescaling is abstracted to a havoc of its rows (its polynomial-preservation is C06's
+        `c06_bdf_rescaling`, decided on the real function in the exact domain)."""
+        for k in range(len(d)):
+            row = d.get(k)
+            for i in range(len(row)):
+                row.set(i, dom.opaque("d"))
+        rec.notes.append(("change_d", factor))
+        return None
+
+    def rms_model(it, values, scale):
+        v = dom.opaque("rms")
+        dom.add(v.t >= 0, defines=v)
+        return v
+
+    _idx_prev, _idx_set_prev = idx, idx_set
+
+    def idx2(it, base, i):
+        if isinstance(base, MatrixModel):
+            return dom.opaque("mij") if dom.name == "round" else dom.fresh("mij")
+        return _idx_prev(it, base, i)
+
+    def idx_set2(it, base, i, v):
+        if isinstance(base, MatrixModel):
+            return None
+        return _idx_set_prev(it, base, i, v)
+
     hooks = {
-        "methods": {"ode": m_ode, "jac": m_jac, "mass": m_mass, "solout": m_solout},
+        "methods": {"ode": m_ode, "jac": m_jac, "mass": m_mass, "solout": m_solout, "iter": m_tol_iter},
         "ctors": {"StepInterpolant": ctor_interp},
-        "index": idx,
-        "index_set": idx_set,
-        "fns": {},
+        "index": idx2,
+        "index_set": idx_set2,
+        "fns": {"Matrix::from_storage": mk_matrix, "Matrix::zeros": mk_matrix, "lu_decomp": lu_decomp, "lin_solve": lin_solve,
+                **({"change_d": change_d_model, "weighted_rms_scaled": rms_model} if dom.name == "round" else {}),
+                "lu_decomp_complex": lu_decomp, "lin_solve_complex": lambda it, ar, ai, br, bi, ip: (lin_solve(it, ar, br, ip), lin_solve(it, ai, bi, ip))[0]},
         "globals": {},
     }
     if extra:
